@@ -538,6 +538,59 @@ func (c *Ctx) ghostComp(env *CEnv, name string, ref string, sort string) string 
 	return t
 }
 
+// streamRef: the ghost stream object behind a reader value. Normally the reader object itself; for a type declared
+// `streamalias *T path` (a reader that is a window onto another reader, e.g. *isobmff.box onto box.reader.br) the
+// object reached through path - for an interface value of unknown dynamic type this is decided by its type tag.
+func (c *Ctx) streamRef(env *CEnv, v CVal) string {
+	base := refOf(v)
+	if len(c.w.streamAlias) == 0 {
+		return base
+	}
+	out := base
+	for _, al := range c.w.streamAlias {
+		t := c.resolveTypeName(env, al.typ)
+		pt, ok := t.(*types.Pointer)
+		if !ok {
+			continue
+		}
+		deref := func() string {
+			cur := base
+			ct := pt.Elem()
+			for _, f := range al.path {
+				stt, ok := ct.Underlying().(*types.Struct)
+				if !ok {
+					cerr("streamalias %s: %s is not a struct", al.typ, ct)
+				}
+				var ft types.Type
+				for i := 0; i < stt.NumFields(); i++ {
+					if stt.Field(i).Name() == f {
+						ft = stt.Field(i).Type()
+					}
+				}
+				if ft == nil {
+					cerr("streamalias %s: no field %s", al.typ, f)
+				}
+				cur = fmt.Sprintf("(select %s %s)", c.heapGet(env.state(), typeKey(ct)+"."+f, "Int"), cur)
+				if p2, ok := ft.Underlying().(*types.Pointer); ok {
+					ct = p2.Elem()
+				} else {
+					ct = ft
+				}
+			}
+			return cur
+		}
+		switch x := v.V.(type) {
+		case IfaceV:
+			out = fmt.Sprintf("(ite (= %s %d) %s %s)", x.Tag, c.w.typeTag(t), deref(), out)
+		default:
+			if v.T != nil && types.Identical(v.T, t) {
+				return deref()
+			}
+		}
+	}
+	return out
+}
+
 func refOf(v CVal) string {
 	switch x := v.V.(type) {
 	case IfaceV:
@@ -619,17 +672,17 @@ func (c *Ctx) evalCall(env *CEnv, e *ast.CallExpr) CVal {
 			}
 			cerr("len of %T", v.V)
 		case "pos", "lim", "peeked", "bsize":
-			r := refOf(c.evalExpr(env, e.Args[0]))
+			r := c.streamRef(env, c.evalExpr(env, e.Args[0]))
 			return CVal{V: Sc{c.ghostComp(env, id.Name, r, BV64), BV64}, T: tInt}
 		case "sid":
-			r := refOf(c.evalExpr(env, e.Args[0]))
+			r := c.streamRef(env, c.evalExpr(env, e.Args[0]))
 			return CVal{V: Sc{c.ghostComp(env, "sid", r, "Int"), "Int"}, T: types.Typ[types.UnsafePointer]}
 		case "fault":
-			r := refOf(c.evalExpr(env, e.Args[0]))
+			r := c.streamRef(env, c.evalExpr(env, e.Args[0]))
 			return CVal{V: Sc{c.ghostComp(env, "fault", r, "Bool"), "Bool"}, T: tBool}
 		case "data":
 			// data(r, i): byte i of the stream behind reader r
-			r := refOf(c.evalExpr(env, e.Args[0]))
+			r := c.streamRef(env, c.evalExpr(env, e.Args[0]))
 			i := c.toBV64(c.evalExpr(env, e.Args[1]))
 			sid := c.ghostComp(env, "sid", r, "Int")
 			// stream arrays (ids 1..4095) are immutable: always read them in the entry memory, so that the value does
@@ -670,7 +723,7 @@ func (c *Ctx) evalCall(env *CEnv, e *ast.CallExpr) CVal {
 			return CVal{V: Sc{and(parts...), "Bool"}, T: tBool}
 		case "window":
 			// window(r): the unread part of the stream behind r as a byte slice value
-			r := refOf(c.evalExpr(env, e.Args[0]))
+			r := c.streamRef(env, c.evalExpr(env, e.Args[0]))
 			sid := c.ghostComp(env, "sid", r, "Int")
 			p := c.ghostComp(env, "pos", r, BV64)
 			l := c.ghostComp(env, "lim", r, BV64)
@@ -773,7 +826,7 @@ func (c *Ctx) evalCall(env *CEnv, e *ast.CallExpr) CVal {
 			return CVal{V: Sc{and(parts...), "Bool"}, T: tBool}
 		case "windowAt":
 			// windowAt(r, o): the stream behind r from absolute offset o as a byte slice value
-			r := refOf(c.evalExpr(env, e.Args[0]))
+			r := c.streamRef(env, c.evalExpr(env, e.Args[0]))
 			o := c.toBV64(c.evalExpr(env, e.Args[1]))
 			sid := c.ghostComp(env, "sid", r, "Int")
 			l := c.ghostComp(env, "lim", r, BV64)
